@@ -163,7 +163,12 @@ def module_digest(mods, per_name=False):
                 continue
             if isinstance(v, (type, types.ModuleType, types.FunctionType)):
                 continue
-            b = pickle.dumps((type(v).__name__, _norm(v)), 4)
+            try:
+                b = pickle.dumps((type(v).__name__, _norm(v)), 4)
+            except Exception:
+                # a constant that cannot be pickled (a lambda, an open resource): identify it by type only,
+                # never let the digest itself fail
+                b = ('unpicklable:' + type(v).__name__).encode()
             out[mn + '.' + k] = hashlib.blake2b(b, digest_size=8).hexdigest()
     if per_name:
         return out
